@@ -14,6 +14,7 @@ import (
 
 	"verifharness/mon"
 
+	"github.com/google/go-tdx-guest/verify"
 	"github.com/google/go-tdx-guest/verify/trust"
 )
 
@@ -343,6 +344,40 @@ func c20(x *mon.Ctx) {
 		}
 	}
 	retryOverRealHTTP(x)
+	// the default getter (the anchor "DefaultHTTPSGetter": 2 min timeout, 30 s maximum delay, the production inner getter) is a
+	// fresh value per call: a caller that tunes the one it was given does not re-configure everybody else's
+	{
+		prob := ""
+		for round := 0; round < 3 && prob == ""; round++ {
+			g1, ok := trust.DefaultHTTPSGetter().(*trust.RetryHTTPSGetter)
+			if !ok || g1 == nil {
+				prob = "DefaultHTTPSGetter() is not a *RetryHTTPSGetter"
+				break
+			}
+			if g1.Timeout != 2*time.Minute || g1.MaxRetryDelay != 30*time.Second {
+				prob = fmt.Sprintf("round %d: DefaultHTTPSGetter() has Timeout=%v MaxRetryDelay=%v (2m0s / 30s expected)", round, g1.Timeout, g1.MaxRetryDelay)
+				break
+			}
+			if _, ok := g1.Getter.(*trust.SimpleHTTPSGetter); !ok {
+				prob = fmt.Sprintf("round %d: DefaultHTTPSGetter() wraps %T", round, g1.Getter)
+				break
+			}
+			g1.Timeout, g1.MaxRetryDelay, g1.Getter = 0, 0, &flaky{failures: -1} // this caller's business
+			if o := verify.DefaultOptions(); o != nil {
+				if g2, ok := o.Getter.(*trust.RetryHTTPSGetter); ok && g2 != nil {
+					if g2 == g1 || g2.Timeout != 2*time.Minute || g2.MaxRetryDelay != 30*time.Second {
+						prob = fmt.Sprintf("round %d: after a caller tuned the default getter it had been given, verify.DefaultOptions() carries a getter with Timeout=%v MaxRetryDelay=%v (same object: %v)", round, g2.Timeout, g2.MaxRetryDelay, g2 == g1)
+					}
+					g2.Timeout = time.Nanosecond
+				}
+			}
+		}
+		if prob != "" {
+			x.Violation("default-getter", "", prob, "none", "")
+		}
+		x.Note("default-getter", "", prob == "", false, true)
+		x.Require("default-getter", 0, 0, 1)
+	}
 	x.Require("retry/same-schedule-under-shorter-timeout", 3, 0, 3)
 	x.Require("retry/fail-forever", 0, 20, 20)
 	x.Require("retry/k-failures-then-success", 30, 5, 60)
